@@ -533,7 +533,7 @@ theorem unprotected_canon {um : GoMap} (hf : FlatMap um) (hfix : ∀ e ∈ um, n
       simp [encodeBucket]
     · rw [encodeBucket_flat hg false hvg hne (fun _ => hlg)]; rfl
   refine ⟨he um hf hv hlen, mapWire_wf hf hlen, fun t d hd => mapWire_inLimits hlen t d hd, ?_, ?_⟩
-  · rw [decUnprot_mapWire hf hu hv, hid]
+  · rw [decUnprot_mapWire hf hu hv hlen, hid]
   · rw [he _ hf.sorted hvs (by rw [sortEntries_length]; exact hlen), mapWire_sortEntries]
 
 /-! ### a wire-side condition that makes the decoded maps flat -/
@@ -1026,12 +1026,14 @@ theorem ex_decPu : decProtected exPu = .ok exPm := by
     parseHead, maxNested, maxElems, labelsOK, maxInt64, GoVal.keyEq, decodePairs, decodeAny,
     keyHashable, validateHeaderParameters, validateLoop, normalizeLabel, wrap64, checkParam,
     castAlg, algorithmOf, lookupLabel, GoMap.lookup, lbl, GoMap.set, GoMap.has, bind, Out.bind,
-    canInt, canTstr, canBstr, IntKind.signed]
+    canInt, canTstr, canBstr, IntKind.signed, Wire.stripSelfDescribed,
+    (by decide : headerLabelsUntagged [0xa2, 0x04, 0x41, 0x31, 0x01, 0x26] = true)]
 
 theorem ex_decUn : decUnprot exUn = .ok exUm := by
   simp [exUn, exUm, decUnprot, labelsOK, decUnprotPairs, decodeAny, isCsigLabel, normalizeLabel,
     wrap64, maxInt64, validateHeaderParameters, validateLoop, checkParam, tstrOrUintOK, canUint,
-    IntKind.signed, GoVal.keyEq, lbl]
+    IntKind.signed, GoVal.keyEq, lbl, Wire.stripSelfDescribed,
+    (by decide : headerLabelsUntagged (Wire.map .imm [(.uint .imm 3, .uint .w1 5)]).bytes = true)]
 
 theorem exB_tree : exB = (if true then [0xd2] else []) ++
     (Wire.arr .imm [exPu, exUn, .bstr .imm [1, 2, 3], .bstr .imm [7]]).bytes := by decide
